@@ -5,19 +5,76 @@ NOT_YET = {}
 S_NOTE = ("Theorems are about the Lean model; S-tier ones assume the FloatSpec contract (IEEE-754 binary64 semantics + glibc sanity bounds, "
           "proved consistent by the real-number witness); the model is tied to the code by the bit-exact correspondence on this run's "
           "generated lines only. Axioms: propext, Classical.choice, Quot.sound.")
+G = "G = proved for every arithmetic (no assumption on float ops; transfers to the machine by the tie alone)"
 TEXT = {
+ "C01": {"level": "Proved (S): Angle::new establishes the reachable-state invariant (finite remainder in [0, pi/2 - 1e-10]) for |p|<=1e200, |d|>=1e-200, "
+                  "|p*pi/d|<=2^42 - incl. the negative path and the blade/fmod reconciliation of the repaired code; new_with_blade, new_from_cartesian; "
+                  "every angle operation preserves it; history theorem by induction over any operation sequence; sum and product magnitudes finite and "
+                  "non-negative in every branch (never NaN). Proved (G): the panics of inv/div/normalize/invert_circle occur exactly when the tested "
+                  "magnitude compares equal to 0. Partial: constructor domain is bounded by 1e200 (p*pi overflows beyond 5.7e307).",
+         "note": S_NOTE},
+ "C02": {"level": "Proved (S): exact quarter turns new(k,2)=(k blades, rem 0.0) for all k<2^53 and create_dimension; constant table (0, pi/2, pi, 3pi/2, -pi/2, 4pi); "
+                  "general path with non-negative total: blade = floor(nt/(pi/2)) and blade*(pi/2)+rem = nt exactly, or snapped to the next blade within 1e-10; "
+                  "new_with_blade adds exactly k blades; scalar sign law. Partial: negative totals in general, Cartesian round trip (explored by oracle with exact "
+                  "rational floor(2p/d)).", "note": S_NOTE},
+ "C03": {"level": "Proved for all canonical angles of any blade count: 12 spellings identical (G), bit-for-bit commutativity, zero identity, "
+                  "blade = sum with at most one carry, invariant preserved, |T(a+b) - (T a + T b)| < 1e-10 + 1e-15 in rounded arithmetic (S); "
+                  "associativity of totals proved at 4x the tolerance (partial: property states 2x). Tie: all 12 spellings bit-exact.",
+         "note": S_NOTE},
  "C04": {"level": "Proved for all canonical angles of any blade count: 8+2 spellings identical and the blade-wrap laws (G); a-a is literally the "
                   "zero angle, the difference is canonical, T(a-b) = T(a)-T(b) within 1e-10+1e-15 with no spurious turns when T(b)<=T(a), and "
                   "otherwise a forward rotation congruent mod whole turns with blade<=4 (=4 only with remainder 0) (S). Not yet proved "
                   "(explored by oracle clauses only): (a+b)-b~a and the Div<f64> total law.",
          "note": S_NOTE},
+ "C05": {"level": "Proved: product = (one float product of magnitudes, angle sum), all division spellings = multiplication by the inverse, panics exactly on "
+                  "zero magnitude, Angle*/+Geonum only rotate, scale = mul by scalar, pow magnitude (G); bit-for-bit commutativity, [1,0] identity, inverse "
+                  "= reciprocal magnitude + exactly 2 blades with remainder untouched, scale sign law (+2 blades iff factor<0, none for +-0) (S). "
+                  "Partial: associativity, powf rounding.", "note": S_NOTE},
+ "C06": {"level": "Proved: sub = add of the half-turned operand, all spellings and translate identical (G); a-a has magnitude exactly 0.0; every branch of + and - "
+                  "returns a finite non-negative magnitude for magnitudes in [0,1e100] (never NaN - relies on the radicand clamp fix); zero operand with the same "
+                  "angle leaves magnitude and angle unchanged (S). Partial (explored by oracle with Cartesian reference): the refinement to component-wise "
+                  "addition within 1e-10 and the sqrt(eps) cancellation bound.", "note": S_NOTE},
  "C07": {"level": "Proved: grade = blade mod 4 and predicates, base_angle, magnitudes untouched, is_opposite <-> blade counts differ by exactly two "
                   "(unbounded integers) and the remainder test (G); each step operator's exact blade delta (2,2,2,2,1,1,3,3) with remainder value "
                   "and canonicity preserved; history theorem by induction over any sequence of step operations of any length; 4-cycle "
                   "corollaries (S). Mixed histories with add/sub/mul/div are covered by C03/C04 step theorems plus the oracle's rule check.",
          "note": S_NOTE},
- "C03": {"level": "Proved for all canonical angles of any blade count: 12 spellings identical (G), bit-for-bit commutativity, zero identity, "
-                  "blade = sum with at most one carry, invariant preserved, |T(a+b) - (T a + T b)| < 1e-10 + 1e-15 in rounded arithmetic (S); "
-                  "associativity of totals proved at 4x the tolerance (partial: property states 2x). Tie: all 12 spellings bit-exact.",
+ "C08": {"level": "Proved for EVERY arithmetic and every shift n (unbounded): the grade angle of a difference is the same value under 4n/4m blade shifts, hence dot, "
+                  "orthogonality, distance, Angle::project, cos/sin, cone membership are identical structures (bit-identical on the machine); wedge, meet, "
+                  "project shift their angle by exactly the operands' shifts (G); project_to_dimension(k) = (k+4n) (S). Partial: Cartesian value of sums under "
+                  "shifts (float tolerance grows with ulp(blade*pi/2)) explored by oracle.", "note": S_NOTE},
+ "C09": {"level": "Proved: dot = |value| at the base angle or base+pi exactly when the computed value tests negative, orthogonality test definition (G); the two "
+                  "angles are blade 0 / blade 2 with remainder 0; magnitude >= 0 and <= rnd(|a||b|) (Cauchy-Schwarz in rounded arithmetic) (S). Partial "
+                  "(explored): value = |a||b|cos(delta) within tolerance, symmetry, a.a=|a|^2.", "note": S_NOTE},
+ "C10": {"level": "Proved: geo = dot + wedge and meet = dual(wedge(dual,dual)) definitionally; wedge magnitude/angle structure incl. the half turn iff sine tests "
+                  "negative (G); wedge magnitude in [0, rnd(|a||b|)], angle canonical with blade in [ba+bb+1, ba+bb+4] (S). Partial (explored): sine value, "
+                  "anticommutation, Lagrange identity.", "note": S_NOTE},
+ "C11": {"level": "Proved: projection independent of |b| beyond the 1e-10 test, structure (|a||cos| along b's angle, +pi iff factor negative), tiny-axis branch total, "
+                  "reject = a - proj, angle/dimension forms (G); 0 <= |proj| <= |a|, projection angle canonical with b's blade or +2 and b's remainder (S). "
+                  "Partial (explored): orthogonal decomposition, Pythagoras, cos(k pi/2 - t).", "note": S_NOTE},
+ "C12": {"level": "Proved: rotation returns the magnitude field itself and the angle sum; reflection never reads the axis length; scale-rotate branch law (G); full turn "
+                  "adds exactly 4 blades keeping grade and remainder; rotation carries; reflection result canonical with at least twice the axis's blades (S). "
+                  "Partial (explored): 2*alpha - t direction law, involution, Cartesian meaning of scale-rotate.", "note": S_NOTE},
+ "C13": {"level": "Proved: mag_diff definition; invert_circle panics exactly when the offset magnitude compares equal to zero (G); distance_to is finite, non-negative "
+                  "(never NaN - relies on the clamp fix) and sits at blade 0 with remainder 0; inverting the circle's own centre panics (S). Partial (explored): "
+                  "Euclidean meaning, metric axioms, inversion laws.", "note": S_NOTE},
+ "C14": {"level": "Proved: same-angle branch keeps the receiver's angle field; opposite branch: cancellation gives (0.0, new_with_blade(ba+bb)) literally blade ba+bb rem "
+                  "0.0, otherwise the larger summand's angle field (G/S); the equality tests are blade-exact so the branches fire only for equal blades / "
+                  "blades exactly two apart (S). The general-regime bound is FALSE of the float code for blade sums above ~1e5 (known finding, witness replayed).",
          "note": S_NOTE},
+ "C15": {"level": "Proved: tan = sin.div(cos), adj/opp = cos/sin scaled (definitional), cos/sin = |libm value| at base or base+pi iff the value tests negative (G); "
+                  "lattice placement (cos on blade 0/2, sin on blade 1/3, remainder 0), magnitudes in [0,1] (S). Partial (explored): Pythagorean identity, tan "
+                  "value/period/odd grade, Cartesian components.", "note": S_NOTE},
+ "C16": {"level": "Proved: == implies identical blades; Geonum == adds magnitude; partial_cmp = Some(cmp) (G); cmp is the lexicographic order on (blade, remainder "
+                  "value): never panics on finite fields, reflexive, antisymmetric, transitive, total; cmp=Equal implies ==; == implies remainders within "
+                  "1e-15 (S); totality of the sort relation over exact reals (E). '== implies cmp=Equal' is FALSE of the code (known finding, witness replayed); "
+                  "proved only for equal remainder values (_partial).", "note": S_NOTE},
+ "C17": {"level": "Proved for every arithmetic (G): truncate/select_cone are exactly List.filter by the coded predicates (sublists, order kept, strictness, zero "
+                  "members/axis never selected); scale_all/rotate_all are List.map (length kept); total_magnitude is the left fold from -0.0; dominant is None "
+                  "exactly on the empty collection and otherwise a member; conversions/index/iteration are the member sequence itself.", "note": S_NOTE},
+ "C18": {"level": "Proved for every arithmetic (G): each helper of the six optional traits equals its documented closed form over core operations (mostly "
+                  "definitional by design - the weight is on the bit-exact tie, where every helper is an op).", "note": S_NOTE},
+ "C19": {"level": "Proved: activations return the angle field untouched, refraction/propagation the magnitude field, dispersion magnitude 1.0, ReLU gate law, "
+                  "negative charge = half turn (G); sigmoid output strictly between 0 and a non-zero in-domain magnitude, |tanh output| <= magnitude (S). "
+                  "Partial (explored by metamorphic oracle): Snell, 1/m^2, q/r^n, 1/r, area invariance and shoelace.", "note": S_NOTE},
 }
